@@ -225,6 +225,7 @@ SPECS["C01"] = dict(
     trusted_base=_HCOBS_TB,
     assumptions=_HCOBS_ASSUME,
 )
+SPECS["C01"]["level_text"] += (" Composition (Props/C01W, track enccomp): the same encoder/decoder state machines issuing the structural OwningIovec model's calls (Model/EncWorld, what family codecw runs against the real Encoder/Decoder) never panic, keep the iovec's abstraction equal to the abstract Pipe run of the same emits up to the renaming of placeholder ids, and drained ++ flatten = Spec.encode / the decoded data for every segmentation, borrow/copy method choice and drain schedule; `_partial` = the anchored input method is outside the proved iovec vocabulary.")
 
 SPECS["C02"] = dict(
     title="HCOBS output never contains the stuff sequence, is split-independent, bounded",
@@ -271,6 +272,7 @@ SPECS["C02"] = dict(
     trusted_base=_HCOBS_TB,
     assumptions=_HCOBS_ASSUME,
 )
+SPECS["C02"]["level_text"] += (' Props/C02W restates no-stuff, split independence and the production length bound on the structural iovec model driven by the encoder (drained ++ bytes of all slices), `_partial` = borrow/copy methods only.')
 
 SPECS["C07"] = dict(
     title="HCOBS wire format: canonical encoder, decoder accepts exactly the format",
@@ -443,6 +445,7 @@ SPECS["C09"] = dict(
     trusted_base=["abstract Pipe as specification of OwningIovec (tied by C03/C04)"],
     assumptions=["64-bit usize"],
 )
+SPECS["C09"]["level_text"] += (' Props/C09W (track enccomp): structural lag of the encoder-driven iovec model between calls = offset of the pending header in its (owned, single-chunk) slice + header + current chunk, exactly; the constant bound 2^20+64008+2 is proved given the arena in-capacity invariant (hypothesis; ArenaInv of track iovinv) and findHintSize <= 2^20 for requests < 2^20 (proved from the extracted tuning); decoder lag 0 on the iovec; `_partial` = borrow/copy methods only.')
 
 # ---- track abt: AtomicBaseTime (C13, C18) -----------------------------------------------------------
 _ABT_TRUST = ("Partial by nature: the theorems are about two memory-model MACHINES (sequentially consistent interleaving; a "
